@@ -272,7 +272,14 @@ def gen_c08_case(rng: random.Random) -> Dict[str, Any]:
         default = had_default and not kwonly or rng.random() < 0.25
         if default and not kwonly:
             had_default = True
-        params.append({"name": f"p{pi}", "ann": ann, "kwonly": kwonly, "default": bool(default)})
+        name = f"p{pi}"
+        if rng.random() < 0.08:
+            # names that the sending side also uses for something of its own
+            cand = [x for x in ("task_id", "labels", "message", "broker", "timeout", "schedule_id", "source", "time", "cron")
+                    if x not in [q["name"] for q in params]]
+            if cand:
+                name = rng.choice(cand)
+        params.append({"name": name, "ann": ann, "kwonly": kwonly, "default": bool(default)})
         pi += 1
     # supplied arguments
     positional_ok = []
@@ -300,6 +307,8 @@ def gen_c08_case(rng: random.Random) -> Dict[str, Any]:
         "prior_inconvertible": rng.random() < 0.2,
         # a shared-registry task of the same name with other annotations (the worker's own task has priority)
         "shadow_shared": rng.random() < 0.15,
+        # the task function is wrapped by a user decorator written with functools.wraps and (*args, **kwargs)
+        "wrapped": rng.random() < 0.12,
     }
 
 
@@ -340,6 +349,19 @@ def build_fn(case: Dict[str, Any]) -> Any:
     exec(src, ns)  # noqa: S102
     fn = ns["gen_task"]
     fn.__module__ = "mon.args_labels"
+    if case.get("wrapped"):
+        import functools
+
+        inner = fn
+        if case["async"]:
+            @functools.wraps(inner)
+            async def traced(*args: Any, **kwargs: Any) -> Any:
+                return await inner(*args, **kwargs)
+        else:
+            @functools.wraps(inner)
+            def traced(*args: Any, **kwargs: Any) -> Any:
+                return inner(*args, **kwargs)
+        fn = traced
     return fn, src
 
 
